@@ -1,5 +1,5 @@
 """C01 -- guesses are emitted in non-increasing probability order."""
-from pyvc.runner import Prop, Bounded
+from pyvc.runner import Prop, Bounded, script_replay
 import contracts.guesser_core as gc
 import contracts.guesser_lemmas as gl
 
@@ -14,6 +14,7 @@ PROP = Prop(
                Q + 'PcfgQueue.insert_queue', Q + 'PcfgQueue.next'],
     lemmas=gl.all_c01_lemmas,
     level='proof',
+    replay=script_replay('replay/guesser.py'),
     assumptions=[
         'A-FP: float * is monotone in each argument on non-negative operands, x*y <= x for 0<=y<=1, x*1.0 == x; '
         'nothing else is assumed of it (not associative, not commutative)',
